@@ -42,7 +42,7 @@ FLOORS = {"quick": {"departures_checked": 20000, "drop_decisions_checked": 20000
                        "monitor_samples_coincident": 6000, "red_arrivals": 2000000, "red_prob_region_arrivals": 400000,
                        "red_below_min": 100000, "red_above_limit": 40000, "lohi_ambiguous": 2000,
                        "arrival_at_departure_instant": 20000}}
-KEYS = tuple(FLOORS["quick"].keys()) + ("monitor_cases", "red_cases", "port_cases", "red_certain_drops_checked")
+KEYS = tuple(FLOORS["quick"].keys()) + ("monitor_cases", "red_cases", "port_cases", "red_certain_drops_checked", "long_history_cases", "big_clock_cases", "zero_size_packets")
 
 
 def plan(tier):
@@ -57,7 +57,7 @@ def gen_case(rng, i):
     if i % 25 == 0:
         return gen_red(rng)
     flavour = "exact" if rng.random() < 0.7 else "float"
-    sizes = rng.choice([[100], [100, 200], [64, 128, 256], [100, 250, 1000]])
+    sizes = rng.choice([[100], [100, 200], [64, 128, 256], [100, 250, 1000], [0, 100], [0, 64, 128]])
     rate = rng.choice([0, 800, 800, 1600, 6400, 1000]) if flavour == "exact" else rng.choice([0, 1000, 3000, 777])
     limit_bytes = rng.random() < 0.5
     if limit_bytes:
@@ -65,6 +65,9 @@ def gen_case(rng, i):
     else:
         qlimit = rng.choice([None, 0, 1, 2, 2, 3, 4, 6])
     n = rng.randint(4, 70)
+    long_history = (i % 40 == 7)
+    if long_history:
+        n = rng.choice([4200, 5000, 8300])           # one Port object that has seen thousands of packets
     arr = vnet.gen_arrivals(rng, 2, flavour, n, sizes, None, burst_p=0.45)
     if rate and flavour == "exact" and rng.random() < 0.6:
         # arrivals exactly at transmission ends: put arrivals on multiples of one transmission time
@@ -74,8 +77,11 @@ def gen_case(rng, i):
             a["t"] = t
             t += rng.choice([0, 0, tx, tx, 2 * tx, tx / 2])
     case = {"kind": "port", "flavour": flavour, "rate": rate, "qlimit": qlimit, "limit_bytes": limit_bytes,
-            "element_id": rng.choice(["p1", "", 0, "sw.0", 7]), "arrivals": arr}
-    if rng.random() < 0.35:
+            "element_id": rng.choice(["p1", "", 0, "sw.0", 7]), "arrivals": arr, "long_history": long_history,
+            "t0": rng.choice([0, 0, 0, 2 ** 20, 1.7e9 if flavour == "float" else 2 ** 30])}
+    for a in arr:
+        a["t"] += case["t0"]
+    if rng.random() < 0.35 and not long_history:
         offs = rng.random() < 0.5
         case["monitor"] = {"included": rng.random() < 0.5,
                            "samples": [rng.choice([0.37, 0.61, 1.13]) if offs else rng.choice([0.25, 0.5, 1, 0.125])
@@ -106,8 +112,12 @@ def gen_red(rng):
 def run_port(case, stats):
     from onl.netdev import Port, PortMonitor
     viol = []
-    net = vnet.Net()
+    net = vnet.Net(case.get("t0", 0))
     env, tape = net.env, net.tape
+    if case.get("long_history"):
+        stats["long_history_cases"] += 1
+    if case.get("t0"):
+        stats["big_clock_cases"] += 1
     port = Port(env, case["rate"], case["qlimit"], case["limit_bytes"], case["element_id"])
     sink = net.recorder("sink")
     port.out = sink
@@ -159,6 +169,7 @@ def run_port(case, stats):
         env.process(mon.run())
         last = max(a["t"] for a in case["arrivals"])
         horizon = last + 40
+
     err = net.run(until=horizon)
     if err:
         bad(err, "the run raised", net.errors[-1] if net.errors else err)
@@ -212,47 +223,44 @@ def run_port(case, stats):
             break
     # drop decisions in action order
     out_seq = {o[5]: o[0] for o in outs}
-    acc_list = []      # (uid, size, in_seq, in_step, arrival)
-    started = {}       # uid -> "definite" / ("window", step, now)
+    acc_list = []      # (uid, size, in_seq, in_step, arrival) in acceptance order
+    prefix = [0]       # prefix sums of sizes of acc_list
+    first_held = 0     # FIFO: the packets still held at any action point are a suffix of acc_list
+    dep_times = {r[2] for r in ref.values()}
+    INF_SEQ = 1 << 60
     for e in posts:
         u, dropped = e[5], e[6]
         i = ins[u]
         seq, step, now, size = i[0], i[1], i[2], i[6]
-        held_pk = [x for x in acc_list if out_seq.get(x[0], 1 << 60) > seq]
-        held_bytes = sum(x[1] for x in held_pk)
-        if any(ref[x[0]][2] == now for x in acc_list):
+        while first_held < len(acc_list) and out_seq.get(acc_list[first_held][0], INF_SEQ) < seq:
+            first_held += 1
+        nheld = len(acc_list) - first_held
+        held_bytes = prefix[-1] - prefix[first_held]
+        if now in dep_times:
             stats["arrival_at_departure_instant"] += 1
-        # waiting: not started.  Definite starts: the head of the waiting line starts when its
-        # predecessor's departure is tapped (same action slot); an arrival-to-idle packet starts at an
-        # unobservable later step of its arrival instant.
-        lo = hi = 0
-        inserv = None
-        for x in held_pk:
-            xu = x[0]
-            # predecessor in accepted order
-            idx = next(j for j, y in enumerate(acc_list) if y[0] == xu)
-            if idx == 0:
-                pred_out = -1
+        # waiting = accepted and not yet started.  Every held packet behind the first one is waiting (its
+        # predecessor is still there).  The first held packet has started unless it arrived to a port with
+        # nothing ahead and its (unobservable) start has not happened yet: it starts at a later kernel step
+        # of its own arrival instant.
+        lo = hi = max(0, nheld - 1)
+        if nheld:
+            x = acc_list[first_held]
+            if first_held == 0:
                 idle_arrival = True
             else:
-                pu = acc_list[idx - 1][0]
-                pred_out = out_seq.get(pu, 1 << 60)
-                idle_arrival = pred_out < x[2]           # predecessor had left before x arrived
+                idle_arrival = out_seq.get(acc_list[first_held - 1][0], INF_SEQ) < x[2]
             if idle_arrival:
-                # x arrived to a port with nothing ahead: window between its arrival and its (unseen) start
                 if x[3] == step:
                     lo += 1
                     hi += 1                               # same synchronous burst: cannot have started
                 elif x[4] == now:
                     hi += 1                               # same instant, later step: may or may not have started
-                # earlier instant: has started
-            else:
-                if pred_out > seq:
-                    lo += 1
-                    hi += 1                               # predecessor still there: definitely waiting
+            # else: its predecessor's departure was tapped, so it started in that very action slot
         if lo != hi:
             stats["lohi_ambiguous"] += 1
         stats["drop_decisions_checked"] += 1
+        if size == 0:
+            stats["zero_size_packets"] += 1
         if qlimit is None:
             want = {False}
         elif case["limit_bytes"]:
@@ -271,12 +279,11 @@ def run_port(case, stats):
             break
         if not dropped:
             acc_list.append((u, size, seq, step, now))
-            if not case["limit_bytes"] and qlimit is not None and hi + 1 > max(qlimit - 1, 0) and lo + 1 > max(qlimit - 1, 0):
-                pass
+            prefix.append(prefix[-1] + size)
     # occupancy never exceeds the limit (bytes) -- follows from the decisions, checked directly on the shadow
     # ---- PortMonitor
     if mon is not None:
-        tau = 0
+        tau = case.get("t0", 0)
         inc = case["monitor"]["included"]
         alla = sorted(ref.values())
         for k, (cnt, byt) in enumerate(zip(mon.sizes, mon.sizes_byte)):
